@@ -118,6 +118,14 @@ func (w *c16Worker) deliver(as string, msg string, account string) error {
 	switch msg {
 	case "prepare":
 		return n.RecvPrepare(as, account, 2, c16Parts())
+	case "prepare-listing-the-caller":
+		// The participant list of the message itself names the caller (under each configured identifier in turn, here
+		// the first): what a message says about its sender is not what the transport authenticated.
+		parts := c16Parts()
+		mine := *parts[0]
+		mine.Name = as
+		parts[0] = &mine
+		return n.RecvPrepare(as, account, 2, parts)
 	case "execute":
 		return n.RecvExecute(as, account)
 	case "contribute":
@@ -134,7 +142,7 @@ func (w *c16Worker) deliver(as string, msg string, account string) error {
 }
 
 var c16NonPeers = []string{rig.DefaultClient, "", "zz", "SIGNER-1", "signer-1 ", "signer-5"}
-var c16Msgs = []string{"prepare", "execute", "contribute", "commit", "abort"}
+var c16Msgs = []string{"prepare", "prepare-listing-the-caller", "execute", "contribute", "commit", "abort"}
 
 func (w *c16Worker) Run(path []POp) (bfs.Outcome, error) {
 	w.nruns++
@@ -391,7 +399,7 @@ func c16OverTheWire(run *ev.Run) (map[string]any, error) {
 	}
 	cells := 0
 	acct := func(i int) string { return fmt.Sprintf("%s/wire-%d", rig.DistWallet, i) }
-	call := func(cc *grpc.ClientConn, msg, account string) error {
+	call := func(cc *grpc.ClientConn, msg, account, callerName string) error {
 		ctx, cancel := context.WithTimeout(context.Background(), 20*time.Second)
 		defer cancel()
 		d := pb.NewDKGClient(cc)
@@ -399,6 +407,10 @@ func c16OverTheWire(run *ev.Run) (map[string]any, error) {
 		switch msg {
 		case "prepare":
 			_, err = d.Prepare(ctx, &pb.PrepareRequest{Account: account, Threshold: 2, Participants: parts, Passphrase: []byte("pass")})
+		case "prepare-listing-the-caller":
+			mine := append([]*pb.Endpoint{}, parts...)
+			mine[1] = &pb.Endpoint{Id: parts[1].GetId(), Name: callerName, Port: parts[1].GetPort()}
+			_, err = d.Prepare(ctx, &pb.PrepareRequest{Account: account, Threshold: 2, Participants: mine, Passphrase: []byte("pass")})
 		case "execute":
 			_, err = d.Execute(ctx, &pb.ExecuteRequest{Account: account})
 		case "contribute":
@@ -418,7 +430,7 @@ func c16OverTheWire(run *ev.Run) (map[string]any, error) {
 		return nil, err
 	}
 	defer peer.Close()
-	if err := call(peer, "prepare", acct(0)); err != nil {
+	if err := call(peer, "prepare", acct(0), peerName); err != nil {
 		return nil, fmt.Errorf("over the wire: the prepare of a genuine peer was refused: %v", err)
 	}
 	if !strings.Contains(sessions(), acct(0)) {
@@ -432,7 +444,11 @@ func c16OverTheWire(run *ev.Run) (map[string]any, error) {
 		for _, target := range []string{acct(0), acct(100 + ci)} {
 			for _, msg := range c16Msgs {
 				before := sessions()
-				err := call(cc, msg, target)
+				callerName := c.cert.CommonName
+				if callerName == "" && len(c.cert.DNS) > 0 {
+					callerName = c.cert.DNS[0]
+				}
+				err := call(cc, msg, target, callerName)
 				after := sessions()
 				cells++
 				what := "with no session for the name"
